@@ -15,7 +15,7 @@ RULE = ("(route) sets of 1-4 prefixes from {'', a, ab, b, a:, -, abc, b:} regist
         "length 0-4 over {a,b,c,:,-} x a command; observed: which Memory instance received it; (many) get_many/set_many/delete_many over keys "
         "spanning backends incl. duplicates; (disabled) every facade command with the cache / a prefix / a command disabled by disable(), "
         "disabling() or setup(enable=False): backend touched? raised? result shape; (decor) execution counters of cached functions under "
-        "disabling; (ctl) enable/disable/query sequences across parent and child asyncio tasks. non-trivial: >= 2 registered prefixes match the "
+        "disabling, called one after the other and overlapping in time; (ctl) enable/disable/query sequences across parent and child asyncio tasks. non-trivial: >= 2 registered prefixes match the "
         "key / keys span >= 2 backends / the command is disabled / a child task toggles")
 TRUSTED_BASE = ["Coq 8.16.1 kernel + vm_compute", "hand-written model coq/Model/Router.v tied by this differential run",
                 "contextvars copy-at-task-creation rule is modelled (asyncio), validated by the ctl cases",
@@ -65,6 +65,8 @@ def gen_cases(rng, tier):
     for how in ["full", "get", "set", "none", "disabling"]:
         for deco in ["cache", "early", "soft", "hit"]:
             cases.append({"kind": "decor", "how": how, "deco": deco, "calls": 3})
+            if how in ("full", "disabling"):      # the same calls overlapping in time: a disabled cache must not merge them either
+                cases.append({"kind": "decor", "how": how, "deco": deco, "calls": 3, "conc": True})
     for _ in range(120 if tier == "quick" else 1500):
         ops, tasks = [], [0]
         for _ in range(rng.randint(3, 14)):
@@ -251,16 +253,24 @@ def run_impl(case):
                 @deco
                 async def f(x):
                     n["n"] += 1
+                    if case.get("conc"):
+                        await asyncio.sleep(0); await asyncio.sleep(0)
                     return n["n"]
+
+                async def calls():
+                    if case.get("conc"):
+                        await asyncio.gather(*[f(1) for _ in range(case["calls"])])
+                    else:
+                        for _ in range(case["calls"]): await f(1)
                 how = case["how"]
                 if how == "full": cache.disable()
                 elif how == "get": cache.disable(Command.GET)
                 elif how == "set": cache.disable(Command.SET)
                 if how == "disabling":
                     with cache.disabling():
-                        for _ in range(case["calls"]): await f(1)
+                        await calls()
                 else:
-                    for _ in range(case["calls"]): await f(1)
+                    await calls()
                 return {"execs": n["n"]}
             if kind == "ctl":
                 b = cache.setup("mem://?check_interval=0")
